@@ -1226,3 +1226,96 @@ theorem bounded_wait_aux (idx : Nat) : ∀ (ops : List LOp) (s : LockRun), LInv 
           · rw [hs]; omega
 
 end AioslskVerif.Rate
+
+namespace AioslskVerif.Rate
+open AioslskVerif.Generated.Rate
+
+/-! ### No request is lost or duplicated in the network of limiter objects
+
+`pendingAll`: every request that holds or waits for the lock of some limiter object, replaced objects first. Over any
+history, the requests granted so far together with the pending ones are a permutation of the requests made. -/
+
+def NObj.waiting : NObj → List Nat
+  | .unlimited _ _ => []
+  | .limited o => waitingList o
+
+def pendingAll (olds : List NObj) (cur : NObj) : List Nat := olds.flatMap NObj.waiting ++ cur.waiting
+
+def fateServed (p : Nat) : Fate → List Nat
+  | .granted _ => [p]
+  | _ => []
+
+theorem enterCur_perm (p now : Nat) (c : NObj) :
+    (fateServed p (enterCur p now c).2 ++ (enterCur p now c).1.waiting).Perm (c.waiting ++ [p]) := by
+  cases c with
+  | unlimited b l => simp [enterCur, fateServed, NObj.waiting]
+  | limited o =>
+    simp only [enterCur]
+    cases hh : o.holder with
+    | some h => simp [fateServed, NObj.waiting, waitingList, hh]
+    | none =>
+      simp only []
+      by_cases hz : (Rate.poll o.lim now).2 = 0
+      · simp only [hz, if_true, fateServed, NObj.waiting, waitingList, hh, Option.toList_some, Option.toList_none,
+          List.nil_append, List.singleton_append]
+        exact (List.perm_append_comm (l₁ := [p]) (l₂ := o.queue))
+      · simp only [hz, if_false, fateServed, NObj.waiting, waitingList, hh, Option.toList_none, List.nil_append,
+          List.singleton_append]
+        exact (List.perm_append_comm (l₁ := [p]) (l₂ := o.queue))
+
+theorem waiting_limited (o : LObj) : (NObj.limited o).waiting = waitingList o := rfl
+theorem waiting_unlimited (b l : Nat) : (NObj.unlimited b l).waiting = [] := rfl
+
+theorem perm_swap_head (A B C : List Nat) : (A ++ (B ++ C)).Perm (B ++ (A ++ C)) := by
+  rw [← List.append_assoc, ← List.append_assoc]
+  exact List.Perm.append_right _ List.perm_append_comm
+
+theorem enterChain_perm (p now : Nat) : ∀ (olds : List NObj) (cur : NObj),
+    (fateServed p (enterChain p now olds cur).2.2 ++
+        pendingAll (enterChain p now olds cur).1 (enterChain p now olds cur).2.1).Perm (pendingAll olds cur ++ [p])
+  | [], cur => by simpa [enterChain, pendingAll] using enterCur_perm p now cur
+  | .unlimited b l :: rest, cur => by
+    have ih := enterChain_perm p now rest cur
+    simpa [enterChain, pendingAll, waiting_unlimited] using ih
+  | .limited o :: rest, cur => by
+    simp only [enterChain]
+    cases hh : o.holder with
+    | some h =>
+      simp only [fateServed, pendingAll, List.flatMap_cons, waiting_limited, List.nil_append]
+      have hw : waitingList { o with queue := o.queue ++ [p] } = waitingList o ++ [p] := by
+        simp [waitingList]
+      rw [hw, List.append_assoc, List.append_assoc, List.append_assoc]
+      apply List.Perm.append_left
+      -- [p] ++ (rest… ++ cur…) ~ (rest… ++ cur…) ++ [p]
+      have := List.perm_append_comm (l₁ := [p]) (l₂ := rest.flatMap NObj.waiting ++ cur.waiting)
+      rw [List.append_assoc] at this
+      exact this
+    | none =>
+      have ih := enterChain_perm p now rest cur
+      simp only [pendingAll, List.flatMap_cons, List.append_assoc] at ih ⊢
+      exact (perm_swap_head _ _ _).trans (List.Perm.append_left _ ih)
+
+theorem enterAll_perm (now : Nat) : ∀ (ps : List Nat) (olds : List NObj) (cur : NObj),
+    ((enterAll now ps olds cur).2.2.map (·.1) ++
+        pendingAll (enterAll now ps olds cur).1 (enterAll now ps olds cur).2.1).Perm (pendingAll olds cur ++ ps)
+  | [], olds, cur => by simp [enterAll]
+  | p :: ps, olds, cur => by
+    have h1 := enterChain_perm p now olds cur
+    have h2 := enterAll_perm now ps (enterChain p now olds cur).1 (enterChain p now olds cur).2.1
+    -- goal: served(p) ++ servedRest ++ pending'' ~ pending ++ p :: ps
+    have hgoal : (fateServed p (enterChain p now olds cur).2.2 ++
+        ((enterAll now ps (enterChain p now olds cur).1 (enterChain p now olds cur).2.1).2.2.map (·.1) ++
+          pendingAll (enterAll now ps (enterChain p now olds cur).1 (enterChain p now olds cur).2.1).1
+            (enterAll now ps (enterChain p now olds cur).1 (enterChain p now olds cur).2.1).2.1)).Perm
+        (pendingAll olds cur ++ p :: ps) := by
+      refine (List.Perm.append_left _ h2).trans ?_
+      rw [← List.append_assoc]
+      refine (List.Perm.append_right ps h1).trans ?_
+      simp [List.append_assoc]
+    simp only [enterAll]
+    cases hf : (enterChain p now olds cur).2.2 with
+    | granted n => simpa [hf, fateServed] using hgoal
+    | asleep => simpa [hf, fateServed] using hgoal
+    | queued => simpa [hf, fateServed] using hgoal
+
+end AioslskVerif.Rate
